@@ -8,6 +8,7 @@ import logging
 import os
 import re
 import socket
+import stat
 import struct
 import threading
 import time
@@ -856,7 +857,11 @@ class _TftpReadRequest:
             # read some data.
             try:
                 file_stat = os.fstat(self._file.fileno())
-                self._options[OPTION_TRANSFER_SIZE] = str(file_stat.st_size)
+                if not stat.S_ISREG(file_stat.st_mode):
+                    raise OSError("Not a regular file.")
+                self._options[OPTION_TRANSFER_SIZE] = str(
+                    max(file_stat.st_size - self._file.tell(), 0)
+                )
             except OSError:
                 # We ignore any exception that might happen here: We can still
                 # transfer the file, we just cannot tell its size.
